@@ -5,6 +5,10 @@ V = os.path.dirname(os.path.dirname(os.path.abspath(__file__)))
 tiers = json.load(open(os.path.join(V, "tiers.json")))
 props = [json.loads(l) for l in open(os.path.join(V, "properties.jsonl"))]
 LEVEL = {
+ "C01": ("DESIGN.md §5 C01", "Seeded search over fault sequences (crash with power-loss/kill images, partitions, coordinator crashes, stream breaks, message loss, node swaps, lock-site yields) on a real cluster; containment of every acknowledged write in every later leader's log, final state == reference fold, replica agreement."),
+ "C03": ("DESIGN.md §5 C03", "Same engine with replication-heavy schedules; every Ack on the wire is checked at the first quiescent point after it was sent against the follower's synced log and the leader's log; pairwise prefix agreement and byte-identical state after healing."),
+ "C04": ("DESIGN.md §5 C04", "Same engine with trigger-placed NewTerm requests (held until the target node is in the middle of an operation) and elections forced over a live busy leader; reported head vs. real log end, log frozen after the fence, no ack in older terms."),
+ "C05": ("DESIGN.md §5 C05", "Same engine, election-heavy (coordinator crashes, muted leaders, node swaps); monitors on metadata stores and coordination RPCs for durable-before-send, monotonic terms, one leader per term, fenced majority and best in-ensemble head."),
  "C08": ("DESIGN.md §5 C08", "Seeded search over schedules (lock-site yields, latencies, ack order) of concurrent writers on a fault-free real 3-node cluster with the real coordinator; wire-level and end-of-run invariants on offsets, responses, apply order and the commit offset."),
  "C09": ("DESIGN.md §5 C09", "Seeded search over generated WAL programs (segment/entry sizes, truncation/trim/reopen placement) run on the real WAL inside a simulated-clock bubble and compared op by op with a list model. Sampling, not proof: a clean batch is evidence that the WAL refines the list model on the explored programs."),
  "C10": ("DESIGN.md §5 C10", "Seeded search over crash images (durable shadow + any subset of unsynced pages, torn page, lost index files) and single mutations of record headers/payload/index files for both formats; the real recovery code reopens and reads each image inside recover(). Evidence that recovery yields a clean prefix or an error on the explored images."),
